@@ -44,6 +44,7 @@ class Spec(DiffSpec):
             {"name": "fresh environment built from the dict a fresh scheduler yields for that episode", "hashseed": 0, "args": dict(base), "kind": "s"},
             {"name": "second instance B with the same scenario interleaved", "hashseed": 0, "args": dict(base), "kind": "b", "b": "same"},
             {"name": "second instance B with NMNE capture toggled interleaved", "hashseed": 0, "args": dict(base), "kind": "b", "b": "nmne"},
+            {"name": "second instance B (NMNE capture toggled) constructed, stepped and closed before A is constructed", "hashseed": 0, "args": dict(base), "kind": "b", "b": "before"},
             {"name": "second instance B with all logging/io on interleaved", "hashseed": 0, "args": dict(base), "kind": "b", "b": "io"},
         ]
 
@@ -55,6 +56,8 @@ class Spec(DiffSpec):
     def variant_args(self, case: Dict, ref_result: Dict, variant: Dict) -> Optional[Dict]:
         if variant.get("kind") != case.get("kind"):
             return None
+        if case["kind"] in ("a", "s") and not any(o[0] == "mark" for o in ref_result["ops"]):
+            return None  # the reference run ended before the compared part began (it hit a violation of its own)
         a = super().variant_args(case, ref_result, variant)
         a.pop("kind", None)
         a.pop("mark_at", None)
@@ -69,6 +72,13 @@ class Spec(DiffSpec):
             a.pop("scenario", None)
             a["schedule_dir"] = case["schedule_dir"]
             a["schedule_episode"] = ref_result["episode_at_mark"]
+        elif variant["b"] == "before":
+            sb = copy.deepcopy(ref_result["scenario"])
+            net = sb["simulation"]["network"]
+            cur = (net.get("nmne_config") or {}).get("capture_nmne", False)
+            net["nmne_config"] = {"capture_nmne": not cur, "nmne_capture_keywords": ["DELETE", "ENCRYPT"]}
+            a["pre_b"] = {"scenario": sb, "ops": [["b_reset", 5], ["b_step", 1], ["b_step", 2], ["b_step", 3]]}
+            a["ops"] = ops
         else:
             a["ops"] = self.interleave_b(ops, ref_result["scenario"], variant["b"], case["seed"])
         return a
